@@ -22,6 +22,7 @@
 #include <string.h>
 
 #define DIR_INDEX_THRESHOLD (256)
+#define MAX_NAME_LEN (256)
 
 typedef struct sqfs_dir_entry_t {
 	struct sqfs_dir_entry_t *next;
@@ -192,6 +193,11 @@ int sqfs_dir_writer_add_entry(sqfs_dir_writer_t *writer, const char *name,
 
 	if (name[0] == '\0' || inode_num < 1)
 		return SQFS_ERROR_ARG_INVALID;
+
+	/* the name size field is stored off-by-one and readers (e.g. the
+	   Linux kernel) limit it to 255, i.e. 256 bytes at most */
+	if (strlen(name) > MAX_NAME_LEN)
+		return SQFS_ERROR_OVERFLOW;
 
 	err = add_export_table_entry(writer, inode_num, inode_ref);
 	if (err)
